@@ -93,6 +93,12 @@ impl Env for MiriEnv {
         true
     }
     fn api_panic(&mut self, _api: &'static str) {}
+    fn db_get(&mut self, _name: u8, _case: u8) -> Option<(TimeZone, u32)> {
+        None
+    }
+    fn db_reset(&mut self) {}
+    fn db_advance(&mut self, _step: u8) {}
+    fn db_touch(&mut self, _name: u8) {}
     fn no_alloc_begin(&mut self) {}
     fn no_alloc_end(&mut self, _what: &'static str) {}
 }
